@@ -5,9 +5,9 @@ operations valid; it is not an oracle (the oracle is the Lean spec stream)."""
 import random
 
 KIND_SIZE = {'u8': 1, 'u16': 2, 'u32': 4, 'u64': 8, 'u128': 16, 'u256': 32, 'h256': 32, 'cont': 41,
-             'var': None, 'nest': None, 'nest2': None}
+             'nestv': 64, 'var': None, 'nest': None, 'nest2': None}
 PF = {'u8': 32, 'u16': 16, 'u32': 8, 'u64': 4, 'u128': 2, 'u256': 1, 'h256': None, 'cont': None,
-      'var': None, 'nest': None, 'nest2': None}
+      'nestv': None, 'var': None, 'nest': None, 'nest2': None}
 KINDS = [k for k in KIND_SIZE if k not in ('nest', 'nest2')]   # 'nest' is only compiled for a few capacities
 NEST_N = [4, 8, 9, 33, 1024]
 NEST2_N = [3, 4, 5, 8, 9, 17]
